@@ -211,9 +211,15 @@ def run(ctx):
                     walk(n, v)
                     if direct:
                         nrec[0] += len(direct)
-                        # emissions of this block alone (nested blocks included: they can only add text inside)
-                        if not wrapped(emissions(n)):
-                            bare.append(src(direct[0])[:60])
+                        # in the emission sequence of this block every direct write is immediately preceded by "(" and
+                        # immediately followed by ")"
+                        em_ = emissions(n)
+                        for i_, e_ in enumerate(em_):
+                            if e_ == ("call", ".write"):
+                                before = em_[i_ - 1] if i_ > 0 else None
+                                after = em_[i_ + 1] if i_ + 1 < len(em_) else None
+                                if not (before and before[0] == "lit" and before[1].endswith("(") and after and after[0] == "lit" and after[1].startswith(")")):
+                                    bare.append(src(direct[0])[:60])
                 for k_, v_ in n.items():
                     if k_ in ("template", "template_raw"):
                         continue
